@@ -1520,6 +1520,7 @@ func main() {
 	prefail := flag.String("prefail", "", "worker: file with failures recorded by the supervisor")
 	nShape := flag.Int("shapes", 120, "random graphs carrying a random shape (pointer to fast-path collection / pointer map keys)")
 	noShapes := flag.Bool("noshapes", false, "skip the shape streams")
+	noLeafPos := flag.Bool("noleafpos", false, "skip the leaf table x position stream")
 	flag.Parse()
 	if *child {
 		childMain()
@@ -1537,7 +1538,7 @@ func main() {
 		}
 	}
 	r := vh.NewRng(vh.SeedFromEnv())
-	sum := vh.NewSummary("graph: random adjacency over node type N (*N, **N, []*N, map[string]*N, interface{} holding ptr/pp/slice/map/[]interface{}/map[string]interface{}, embedded struct, *[]*N, *map[string]*N, [2]*N, *Book whose Ref points at its embedded first field, *[2]Cell whose element 1 points at element 0: same address, other type; *ON / *ONA: non-simple structs with an omitempty field coded by kStruct as map, as array under StructToArray, and as array by the toarray tag) x {dag, arbitrary} x CheckCircularRef x root kind x 5 formats, ops Encode/Encode/repair+Reset/Encode; leaves: every unrepresentable kind (and its representable twin) at a random node, optionally behind a pointer; child: cyclic without the option and cycles through map/slice/*interface{}/type P *P only, in a child process; ptrcoll (deterministic, seed independent): pointers to fast-path collections (*[]interface{}, *map[string]interface{}, harmless *[]string) as fields of simple / omitempty / toarray structs held by value, by pointer, as slice / map / array / MapBySlice elements, behind a double pointer and directly in an interface x target kind x {self cycle, two-collection cycle, DAG with sharing} x root by pointer / by value x StructToArray; ptrkey (deterministic): pointer map keys map[*K]int, map[*K]*K (key / value), map[interface{}]int, map[[1]*K]int x {self, back through a field, two keys, DAG with sharing} x Canonical on / off x root by pointer / by value; shapes: random shapes of both kinds on random graphs; a cyclic shape case runs its first Encode in a child process first (a fatal stack overflow is a counterexample); distinct by (stream, cyclic, option, leaf, root kind, nodes, outcome, shape class)")
+	sum := vh.NewSummary("graph: random adjacency over node type N (*N, **N, []*N, map[string]*N, interface{} holding ptr/pp/slice/map/[]interface{}/map[string]interface{}, embedded struct, *[]*N, *map[string]*N, [2]*N, *Book whose Ref points at its embedded first field, *[2]Cell whose element 1 points at element 0: same address, other type; *ON / *ONA: non-simple structs with an omitempty field coded by kStruct as map, as array under StructToArray, and as array by the toarray tag) x {dag, arbitrary} x CheckCircularRef x root kind x 5 formats, ops Encode/Encode/repair+Reset/Encode; leaves: every unrepresentable kind (and its representable twin) at a random node, optionally behind a pointer; child: cyclic without the option and cycles through map/slice/*interface{}/type P *P only, in a child process; ptrcoll (deterministic, seed independent): pointers to fast-path collections (*[]interface{}, *map[string]interface{}, harmless *[]string) as fields of simple / omitempty / toarray structs held by value, by pointer, as slice / map / array / MapBySlice elements, behind a double pointer and directly in an interface x target kind x {self cycle, two-collection cycle, DAG with sharing} x root by pointer / by value x StructToArray; ptrkey (deterministic): pointer map keys map[*K]int, map[*K]*K (key / value), map[interface{}]int, map[[1]*K]int x {self, back through a field, two keys, DAG with sharing} x Canonical on / off x root by pointer / by value; leafpos (deterministic): the leaf table x position product - every leaf kind (func nil / non-nil, send-only / receive-only / bidirectional chan nil / filled, complex64/128 with imag = 0 / <> 0, Raw with / without the option, odd / even MapBySlice, failing / panicking / well-behaved marshalers and Selfers, nil pointer / map / slice / interface) with its static type visible in every position (struct field by value / pointer / omitempty / omitempty pointer, []T, [1]T, chan T, map[string]T, map[T]int, *T, **T, []interface{}, top level), one and two levels deep x 5 formats x bytes / io.Writer x CheckCircularRef x StructToArray: error exactly for the unrepresentable leaves with the table's class, otherwise the bytes of the twin container holding what the leaf stands for, Reset + Encode of a good value afterwards; shapes: random shapes of both kinds on random graphs; a cyclic shape case runs its first Encode in a child process first (a fatal stack overflow is a counterexample); distinct by (stream, cyclic, option, leaf, root kind, nodes, outcome, shape class)")
 	cv := vh.NewCases(*cases, "From Coq Require Import List NArith.\nFrom Verif Require Import Base.Outcome C20.Model C20.Corr.\nImport ListNotations.", "case", "mismatches", 40)
 	if *prefail != "" {
 		if bs, err := os.ReadFile(*prefail); err == nil {
@@ -1676,6 +1677,10 @@ func main() {
 			runCase(id, caseCfg{desc: d, chk: chk, raw: sr.Bool(), canon: sr.Bool(), guard: true}, cv, sum, "shapes")
 			id++
 		}
+	}
+	// leafpos (leafpos.go): every leaf of the table in every position with its static type visible (deterministic)
+	if !*noLeafPos {
+		id = runLeafPos(id, cv, sum)
 	}
 	cv.Close()
 	sum.Print()
